@@ -992,16 +992,16 @@ def remove_value(source: NixSourceCode, npath: str) -> str:
         if removed_layer and removed_layer.get(
             "body_after"
         ):  # pragma: no cover - defensive restoration
-            # Restore trailing trivia that was stashed on the scope layer.
-            if not source.trailing:
-                source.trailing = list(removed_layer["body_after"])
-            else:
-                existing_ids = {id(item) for item in source.trailing}
-                source.trailing.extend(
-                    item
-                    for item in removed_layer["body_after"]
-                    if id(item) not in existing_ids
-                )
+            # Restore trailing trivia that was stashed on the scope layer,
+            # unless the body already got it back.
+            existing_ids = {id(item) for item in source.trailing} | {
+                id(item) for item in target_expr.after
+            }
+            source.trailing.extend(
+                item
+                for item in removed_layer["body_after"]
+                if id(item) not in existing_ids
+            )
         if (
             not source.trailing and original_trailing
         ):  # pragma: no cover - defensive restoration
